@@ -16,7 +16,7 @@ def dump_dirs(sc, dirs, lalr=True, timeout=900):
 
 
 def lalr_case(case, d):
-    cli = "ok" if case["gen"]["ok"] else ("conflicts" if case["gen"]["conflicts"] else "other")
+    cli = "skip" if case["gen"].get("skipcli") else ("ok" if case["gen"]["ok"] else ("conflicts" if case["gen"]["conflicts"] else "other"))
     g = {"terminals": d["terminals"], "rules": d["rules"],
          "prods": [{"lhs": p["lhs"], "rhs": p["rhs"], "prec": p["prec"], "assoc": p["assoc"]} for p in d["prods"]]}
     return {"id": case["id"], "g": g, "states": d["states"] or [], "conflicts": d["conflicts"], "cli": cli}
@@ -53,18 +53,27 @@ def c04(tier):
     rep = Report("C04", tier)
     sc = scratch("c04")
     quick = tier == "quick"
+    rng = random.Random(seed())
     cases = grams.curated_conflict() + grams.curated("lang")
+    cases += grams.chain_family() + grams.order_variants(grams.curated_conflict() + grams.curated("lang"), rng, reverse=True, shuffles=0 if quick else 2)
     cases += grams.random_grammars(seed() + 4, 80 if quick else 500, prefix="rnd4", sugar=0.15, maxalts=3)
     cases += grams.random_grammars(seed() + 44, 60 if quick else 400, prefix="rnd4p", sugar=0.1, prec=True)
     if quick:
-        cases += grams.small_scope(max_rules=2, nterms=2, max_prods=2, max_rhs=2, stride=97, offset=seed() % 97)
+        small = grams.small_scope(max_rules=2, nterms=2, max_prods=2, max_rhs=2, stride=97, offset=seed() % 97)
     else:
-        cases += grams.small_scope(max_rules=2, nterms=2, max_prods=2, max_rhs=2, stride=7, offset=seed() % 7)
-    for c in cases:
+        small = grams.small_scope(max_rules=2, nterms=2, max_prods=2, max_rhs=2, stride=7, offset=seed() % 7)
+    for c in cases + small:
         c["bounds"] = False
     lox = build_lox(sc)
     mod = new_subject_module(sc)
     generate(sc, lox, mod, cases)
+    # the small-scope family goes through the in-process construction only (the command's verdict is sampled above)
+    for n, c in enumerate(small):
+        d = os.path.join(mod, "s%05d" % n)
+        os.makedirs(d, exist_ok=True)
+        open(os.path.join(d, "g.lox"), "w").write(render_lox(c))
+        c["gen"] = {"dir": d, "ok": True, "conflicts": False, "skipcli": True}
+    cases = cases + small
     dumps = dump_dirs(sc, [c["gen"]["dir"] for c in cases])
     lcases, keep = [], []
     for c, d in zip(cases, dumps):
